@@ -12,6 +12,7 @@ from asyncio import (
     gather,
     get_running_loop,
     isfuture,
+    shield,
     wait,
 )
 from typing import TYPE_CHECKING, Any, NamedTuple, cast
@@ -79,6 +80,7 @@ class StreamItemQueue:
         self._producer_cancelled = False
         self._pending_futures: set[Future[WorkResult]] = set()
         self._head: Any = None  # the entry taken from the queue to be delivered next
+        self._cleanup_task: Future[None] | None = None
         self._aborted = False
         self._finished = False
         self._stopped = False
@@ -227,18 +229,32 @@ class StreamItemQueue:
         asynchronous part of the cleanup, or None when the whole cleanup could
         be run synchronously.
         """
+        cleanup_task = self._cleanup_task
+        if cleanup_task is not None and not cleanup_task.done():
+            # The cleanup started by an earlier abort is still running (the
+            # caller that was awaiting it may have been cancelled meanwhile).
+            return shield(cleanup_task)
         cleanup = self._abort(reason)
         discarded: list[Awaitable[Any]] = []
         self._discard_entries(reason, discarded)
-        if not discarded:
-            return cleanup
-        if cleanup is not None:
-            discarded.append(cleanup)
+        if discarded:
+            if cleanup is not None:
+                discarded.append(cleanup)
 
-        async def settle_discarded() -> None:
-            await gather(*discarded, return_exceptions=True)
+            async def settle_discarded() -> None:
+                await gather(*discarded, return_exceptions=True)
 
-        return settle_discarded()
+            cleanup = settle_discarded()
+        if cleanup is None:
+            return None
+        try:
+            get_running_loop()
+        except RuntimeError:
+            return cleanup  # to be settled or disposed of by the caller
+        # Run the cleanup as a task of its own, so that it is not interrupted
+        # when the caller that is awaiting it gets cancelled.
+        self._cleanup_task = cleanup_task = ensure_future(cleanup)
+        return shield(cleanup_task)
 
     def _discard_entries(
         self, reason: BaseException | None, cancel_awaitables: list[Awaitable[Any]]
